@@ -5,7 +5,7 @@ CHECKS['C02'] = dict(
          'every listed small root grid is executed; the grid coordinates are symbolic reals, so z3 decides tiling '
          '(fresh-point query), dyadic ancestry and vertex distinctness for all strictly increasing grids at once; '
          'after every operation the leaf set must equal the least 1-irregular closure computed by an independent '
-         'reference model; every assert inside src/mesh.py is an obligation.',
+         'reference model; every assert inside src/mesh.py is an obligation. round(x, n) is modelled (integer k with |x 10^n - k| <= 1/2), so coordinate rounding in the code under test is decided on the symbolic grid.',
     design_ref='3.1', technique='bounded symbolic execution of src/mesh.py + z3 (QF_LRA) per path, lock-step reference model',
     note='Coordinates are reals (no rounding); histories bounded (depth 3 quick, 4 thorough; 2-3 on the 2x2 grids); '
          'Ref (vf/meshref.py) is trusted; Doerfler/grading as operations are C06/C19.')
@@ -54,7 +54,7 @@ CHECKS['C06'] = dict(
          'indicators and symbolic theta^2: every outcome pattern of the sort / accumulation comparisons is a path, ties '
          'included; z3 decides per path that the marked set is a shortest descending prefix reaching theta^2*total; the '
          'resulting leaves must equal the reference model\'s least closure of the marked bisections; exceptions on '
-         'feasible paths are violations.',
+         'feasible paths are violations. The (N, 2) indicator array is handed over C-ordered or Fortran-ordered, alternating with the mesh.',
     design_ref='3.3', technique='bounded symbolic execution of src/mesh.py Doerfler routines + z3 (QF_LRA), reference closure',
     note='Indicators normalised to sum 3 (homogeneity assumed), theta carried as q = theta^2, np.sqrt assertion compared '
          'on squares; leaf bounds in evidence.')
@@ -78,7 +78,7 @@ CHECKS['C16'] = dict(
     text='InitialMesh built on a square / L-shape of symbolic unit, every refine history up to the depth bound: z3 decides '
          'tiling by axis-parallel dyadic squares and vertex distinctness, 2:1 balance on index rectangles; '
          'refine_msh_bdr + vertex_from_coords on the three shipped factories with a symbolic dyadic segment (symbolic '
-         'integer k, level <= bound), both orientations, three input forms: returns the unique leaf with that edge.',
+         'integer k, level <= bound), both orientations, three input forms: returns the unique leaf with that edge. Levels 8 and 10 (7..10 thorough) with k symbolic inside windows of two adjacent segments (both ends and interior of one piece per domain); a boundary candidate whose first float witness does not replay is retried on other segments (replay only).',
     design_ref='3.5', technique='bounded symbolic execution of src/initial_mesh.py + z3 (QF_LRA / LIA)',
     note='math.isclose modelled (array arguments go through NumPy\'s own scalar conversion); levels above the bound outside.')
 CHECKS['C18'] = dict(
@@ -142,7 +142,7 @@ CHECKS['C14'] = dict(
          'identities with a symbolic interval [a, a+r^2] and symbolic polynomial coefficients (orders 1,3 quick; up to 7 '
          'thorough); two collinear pieces of different length = union interval; (N) all weights positive; (E) for every '
          'order 1..23 and all i <= j <= (N-1)/2 the value on x^i + x^j over [0,1] equals the rational closed form within '
-         '1e-12 (ground facts decided by z3). The corner case against a graded reference is NOT decided.',
+         '1e-12 (ground facts decided by z3). The corner case against a graded reference is NOT decided. Exactness is also decided for objects constructed after objects of other orders in the same process, and the two-piece variant on collinear pieces with independent parameters (both from 0; wrap-around pair).',
     design_ref='3.9', technique='symbolic execution of src/norms.py on exact-rational rules; polynomial identities on canonical forms, ground rational queries',
     note='Closed forms of the Gram entries derived in the harness; invariances decided for the listed orders only.')
 CHECKS['C15'] = dict(
